@@ -247,7 +247,16 @@ def run(shard, rec):
             xa.reverse(); xb[:] = xb[::-1]; sx[0:2] = sx[1::-1]
             r5 = mpc.unit_vector(r2 % 4 if False else mpc.min(r2, secint(3)), 4)
             r6 = mpc.gcp2(sv + 128, secint(12))
-            return [await mpc.output(list(r1)), await mpc.output(r2), await mpc.output(list(r3)), await mpc.output(r4), await mpc.output(r5), await mpc.output(r6)]
+            # whole fixed-point numbers that are properly shared (input by a party, and computed from such inputs)
+            secfxp = mpc.SecFxp(12, 4)
+            fv, fi, fj = mpc.input([secfxp(z if pid == 0 else 0) for z in (v, 1 + (a % 2), b % 2)], senders=0)
+            assert fv.integral and fi.integral
+            r7 = mpc.to_bits(fv)
+            r8 = mpc.to_bits(fv, 4 + 5)[4:]
+            r9 = mpc.unit_vector(fi * fj + fi, 5)
+            r10 = mpc.from_bits(mpc.to_bits(fv * fi, 4 + 7)[4:])
+            fx = [await mpc.output(list(r7)), await mpc.output(list(r8)), await mpc.output(r9), await mpc.output(r10)]
+            return [await mpc.output(list(r1)), await mpc.output(r2), await mpc.output(list(r3)), await mpc.output(r4), await mpc.output(r5), await mpc.output(r6)] + fx
         w = sim.World(m, t, no_prss, seed=rng.randrange(1 << 30), policy=rng.choice(sim.POLICIES)).run(program)
         res = w.ok_results()
         if res is None:
@@ -255,7 +264,10 @@ def run(shard, rec):
             continue
         first = x.index(1) if 1 in x else 6
         g = ((v + 128) | 12) & -((v + 128) | 12)
-        exp = [bits_of((a + b) % (1 << n), n), first, bits_of(v % 256, 8), v % 256, [int(i == min(first, 3)) for i in range(4)], g]
+        fi_, fj_ = 1 + (a % 2), b % 2
+        exp = [bits_of((a + b) % (1 << n), n), first, bits_of(v % 256, 8), v % 256, [int(i == min(first, 3)) for i in range(4)], g,
+               bits_of((v << 4) % (1 << 12), 12), bits_of(v % 32, 5), [int(i == fi_ * fj_ + fi_) for i in range(5)], (v * fi_) % 128]
+        rec.count('fxp_whole_number_bits_shared')
         rec.count('add_bits')
         rec.count('find')
         for pid, r in enumerate(res):
